@@ -1,0 +1,459 @@
+//! Verification seam (only compiled with `--cfg rs_tftpd_verif`).
+//!
+//! Thin shims for the sources of nondeterminism the crate touches: UDP sockets,
+//! the mpsc channel, thread spawn/join, the monotonic clock and sleeping. Every
+//! shim forwards to a [`Backend`] installed on the calling thread; when none is
+//! installed it falls through to the real `std` item, so behaviour without a
+//! simulator is the shipped behaviour. No simulator logic lives here.
+#![allow(missing_docs)]
+
+use std::cell::RefCell;
+use std::fs::File;
+use std::io;
+use std::net::SocketAddr;
+use std::path::Path;
+use std::sync::Arc;
+use std::time::Duration;
+
+pub type TaskId = u64;
+pub type SockId = u64;
+pub type ChanId = u64;
+
+/// The "system calls" of the simulated machine.
+pub trait Backend: Send + Sync + 'static {
+    // time
+    fn now_ns(&self) -> i128;
+    fn sleep(&self, d: Duration);
+    // tasks
+    fn task_create(&self) -> TaskId;
+    fn task_begin(&self, t: TaskId);
+    fn task_end(&self, t: TaskId, panic: Option<String>);
+    fn task_join(&self, t: TaskId);
+    // udp
+    fn udp_bind(&self, a: SocketAddr) -> io::Result<SockId>;
+    fn udp_clone(&self, s: SockId) -> io::Result<SockId>;
+    fn udp_close(&self, s: SockId);
+    fn udp_connect(&self, s: SockId, peer: SocketAddr) -> io::Result<()>;
+    fn udp_send(&self, s: SockId, buf: &[u8], to: Option<SocketAddr>) -> io::Result<usize>;
+    fn udp_recv(&self, s: SockId, buf: &mut [u8]) -> io::Result<(usize, SocketAddr)>;
+    fn udp_local(&self, s: SockId) -> io::Result<SocketAddr>;
+    fn udp_peer(&self, s: SockId) -> io::Result<SocketAddr>;
+    fn udp_set_read_timeout(&self, s: SockId, d: Option<Duration>) -> io::Result<()>;
+    fn udp_set_write_timeout(&self, s: SockId, d: Option<Duration>) -> io::Result<()>;
+    // channel scheduling (payload stays typed inside the shim)
+    fn chan_new(&self) -> ChanId;
+    fn chan_notify(&self, c: ChanId, what: &'static str);
+    /// Blocks the calling task until `chan_notify` or the timeout; `false` = timed out.
+    fn chan_wait(&self, c: ChanId, timeout: Duration) -> bool;
+    // file system points
+    fn fs_point(&self, op: &'static str, path: &Path);
+    fn disk_write_point(&self, file: &mut File, data: &[u8]) -> io::Result<()>;
+}
+
+thread_local! {
+    static CURRENT: RefCell<Option<Arc<dyn Backend>>> = const { RefCell::new(None) };
+}
+
+/// Installs (or removes) the backend of the calling thread. Threads spawned through
+/// [`thread::spawn`] inherit it.
+pub fn install(b: Option<Arc<dyn Backend>>) {
+    CURRENT.with(|c| *c.borrow_mut() = b);
+}
+
+/// The backend of the calling thread, if any.
+pub fn current() -> Option<Arc<dyn Backend>> {
+    CURRENT.try_with(|c| c.borrow().clone()).ok().flatten()
+}
+
+/// Trace / scheduling point before a file system call. No behaviour of its own.
+pub fn fs_point(op: &'static str, path: &Path) {
+    if let Some(b) = current() {
+        b.fs_point(op, path);
+    }
+}
+
+/// Scheduling and cooperative fault point before a write to the target file.
+pub fn disk_write_point(file: &mut File, data: &[u8]) -> io::Result<()> {
+    match current() {
+        Some(b) => b.disk_write_point(file, data),
+        None => Ok(()),
+    }
+}
+
+pub mod net {
+    use super::*;
+    use std::net::ToSocketAddrs;
+
+    pub enum UdpSocket {
+        Real(std::net::UdpSocket),
+        Sim(SockId, Arc<dyn Backend>),
+    }
+
+    fn first_addr<A: ToSocketAddrs>(a: A) -> io::Result<SocketAddr> {
+        a.to_socket_addrs()?
+            .next()
+            .ok_or_else(|| io::Error::new(io::ErrorKind::InvalidInput, "no addresses"))
+    }
+
+    impl UdpSocket {
+        pub fn bind<A: ToSocketAddrs>(addr: A) -> io::Result<UdpSocket> {
+            match current() {
+                Some(b) => {
+                    let id = b.udp_bind(first_addr(addr)?)?;
+                    Ok(UdpSocket::Sim(id, b))
+                }
+                None => Ok(UdpSocket::Real(std::net::UdpSocket::bind(addr)?)),
+            }
+        }
+
+        pub fn connect<A: ToSocketAddrs>(&self, addr: A) -> io::Result<()> {
+            match self {
+                UdpSocket::Real(s) => s.connect(addr),
+                UdpSocket::Sim(id, b) => b.udp_connect(*id, first_addr(addr)?),
+            }
+        }
+
+        pub fn send(&self, buf: &[u8]) -> io::Result<usize> {
+            match self {
+                UdpSocket::Real(s) => s.send(buf),
+                UdpSocket::Sim(id, b) => b.udp_send(*id, buf, None),
+            }
+        }
+
+        pub fn send_to<A: ToSocketAddrs>(&self, buf: &[u8], addr: A) -> io::Result<usize> {
+            match self {
+                UdpSocket::Real(s) => s.send_to(buf, addr),
+                UdpSocket::Sim(id, b) => b.udp_send(*id, buf, Some(first_addr(addr)?)),
+            }
+        }
+
+        pub fn recv(&self, buf: &mut [u8]) -> io::Result<usize> {
+            match self {
+                UdpSocket::Real(s) => s.recv(buf),
+                UdpSocket::Sim(id, b) => b.udp_recv(*id, buf).map(|(n, _)| n),
+            }
+        }
+
+        pub fn recv_from(&self, buf: &mut [u8]) -> io::Result<(usize, SocketAddr)> {
+            match self {
+                UdpSocket::Real(s) => s.recv_from(buf),
+                UdpSocket::Sim(id, b) => b.udp_recv(*id, buf),
+            }
+        }
+
+        pub fn peer_addr(&self) -> io::Result<SocketAddr> {
+            match self {
+                UdpSocket::Real(s) => s.peer_addr(),
+                UdpSocket::Sim(id, b) => b.udp_peer(*id),
+            }
+        }
+
+        pub fn local_addr(&self) -> io::Result<SocketAddr> {
+            match self {
+                UdpSocket::Real(s) => s.local_addr(),
+                UdpSocket::Sim(id, b) => b.udp_local(*id),
+            }
+        }
+
+        pub fn set_read_timeout(&self, dur: Option<Duration>) -> io::Result<()> {
+            match self {
+                UdpSocket::Real(s) => s.set_read_timeout(dur),
+                UdpSocket::Sim(id, b) => b.udp_set_read_timeout(*id, dur),
+            }
+        }
+
+        pub fn set_write_timeout(&self, dur: Option<Duration>) -> io::Result<()> {
+            match self {
+                UdpSocket::Real(s) => s.set_write_timeout(dur),
+                UdpSocket::Sim(id, b) => b.udp_set_write_timeout(*id, dur),
+            }
+        }
+
+        pub fn try_clone(&self) -> io::Result<UdpSocket> {
+            match self {
+                UdpSocket::Real(s) => Ok(UdpSocket::Real(s.try_clone()?)),
+                UdpSocket::Sim(id, b) => Ok(UdpSocket::Sim(b.udp_clone(*id)?, b.clone())),
+            }
+        }
+    }
+
+    impl Drop for UdpSocket {
+        fn drop(&mut self) {
+            if let UdpSocket::Sim(id, b) = self {
+                b.udp_close(*id);
+            }
+        }
+    }
+}
+
+pub mod mpsc {
+    use super::*;
+    use std::collections::VecDeque;
+    pub use std::sync::mpsc::{RecvTimeoutError, SendError};
+    use std::sync::Mutex;
+
+    pub struct SimChan<T> {
+        queue: VecDeque<T>,
+        senders: usize,
+        receiver_alive: bool,
+    }
+
+    pub enum Sender<T> {
+        Real(std::sync::mpsc::Sender<T>),
+        Sim(ChanId, Arc<dyn Backend>, Arc<Mutex<SimChan<T>>>),
+    }
+
+    pub enum Receiver<T> {
+        Real(std::sync::mpsc::Receiver<T>),
+        Sim(ChanId, Arc<dyn Backend>, Arc<Mutex<SimChan<T>>>),
+    }
+
+    pub fn channel<T>() -> (Sender<T>, Receiver<T>) {
+        match current() {
+            Some(b) => {
+                let id = b.chan_new();
+                let inner = Arc::new(Mutex::new(SimChan {
+                    queue: VecDeque::new(),
+                    senders: 1,
+                    receiver_alive: true,
+                }));
+                (
+                    Sender::Sim(id, b.clone(), inner.clone()),
+                    Receiver::Sim(id, b, inner),
+                )
+            }
+            None => {
+                let (s, r) = std::sync::mpsc::channel();
+                (Sender::Real(s), Receiver::Real(r))
+            }
+        }
+    }
+
+    impl<T> Sender<T> {
+        pub fn send(&self, t: T) -> Result<(), SendError<T>> {
+            match self {
+                Sender::Real(s) => s.send(t),
+                Sender::Sim(id, b, inner) => {
+                    {
+                        let mut g = inner.lock().unwrap();
+                        if !g.receiver_alive {
+                            drop(g);
+                            b.chan_notify(*id, "send-closed");
+                            return Err(SendError(t));
+                        }
+                        g.queue.push_back(t);
+                    }
+                    b.chan_notify(*id, "send");
+                    Ok(())
+                }
+            }
+        }
+    }
+
+    impl<T> Clone for Sender<T> {
+        fn clone(&self) -> Self {
+            match self {
+                Sender::Real(s) => Sender::Real(s.clone()),
+                Sender::Sim(id, b, inner) => {
+                    inner.lock().unwrap().senders += 1;
+                    Sender::Sim(*id, b.clone(), inner.clone())
+                }
+            }
+        }
+    }
+
+    impl<T> Drop for Sender<T> {
+        fn drop(&mut self) {
+            if let Sender::Sim(id, b, inner) = self {
+                let last = {
+                    let mut g = inner.lock().unwrap_or_else(|e| e.into_inner());
+                    g.senders -= 1;
+                    g.senders == 0
+                };
+                if last {
+                    b.chan_notify(*id, "senders-gone");
+                }
+            }
+        }
+    }
+
+    impl<T> Receiver<T> {
+        pub fn recv_timeout(&self, timeout: Duration) -> Result<T, RecvTimeoutError> {
+            match self {
+                Receiver::Real(r) => r.recv_timeout(timeout),
+                Receiver::Sim(id, b, inner) => {
+                    let deadline = b.now_ns() + timeout.as_nanos() as i128;
+                    loop {
+                        {
+                            let mut g = inner.lock().unwrap();
+                            if let Some(t) = g.queue.pop_front() {
+                                return Ok(t);
+                            }
+                            if g.senders == 0 {
+                                return Err(RecvTimeoutError::Disconnected);
+                            }
+                        }
+                        let left = deadline - b.now_ns();
+                        if left <= 0 {
+                            return Err(RecvTimeoutError::Timeout);
+                        }
+                        let left = Duration::new(
+                            (left / 1_000_000_000) as u64,
+                            (left % 1_000_000_000) as u32,
+                        );
+                        if !b.chan_wait(*id, left) {
+                            // Timed out; a last look at the queue, like the real channel.
+                            let mut g = inner.lock().unwrap();
+                            return g.queue.pop_front().ok_or(RecvTimeoutError::Timeout);
+                        }
+                    }
+                }
+            }
+        }
+    }
+
+    impl<T> Drop for Receiver<T> {
+        fn drop(&mut self) {
+            if let Receiver::Sim(id, b, inner) = self {
+                {
+                    let mut g = inner.lock().unwrap_or_else(|e| e.into_inner());
+                    g.receiver_alive = false;
+                    g.queue.clear();
+                }
+                b.chan_notify(*id, "receiver-gone");
+            }
+        }
+    }
+}
+
+pub mod thread {
+    use super::*;
+    use std::panic::{catch_unwind, resume_unwind, AssertUnwindSafe};
+
+    pub struct JoinHandle<T> {
+        inner: std::thread::JoinHandle<T>,
+        task: Option<(TaskId, Arc<dyn Backend>)>,
+    }
+
+    impl<T> JoinHandle<T> {
+        pub fn join(self) -> std::thread::Result<T> {
+            if let Some((t, b)) = &self.task {
+                b.task_join(*t);
+            }
+            self.inner.join()
+        }
+    }
+
+    fn panic_text(p: &(dyn std::any::Any + Send)) -> String {
+        if let Some(s) = p.downcast_ref::<&'static str>() {
+            (*s).to_string()
+        } else if let Some(s) = p.downcast_ref::<String>() {
+            s.clone()
+        } else {
+            "(non-string panic payload)".to_string()
+        }
+    }
+
+    pub fn spawn<F, T>(f: F) -> JoinHandle<T>
+    where
+        F: FnOnce() -> T + Send + 'static,
+        T: Send + 'static,
+    {
+        match current() {
+            Some(b) => {
+                let t = b.task_create();
+                let b2 = b.clone();
+                let inner = std::thread::Builder::new()
+                    .spawn(move || {
+                        install(Some(b2.clone()));
+                        let r = catch_unwind(AssertUnwindSafe(|| {
+                            b2.task_begin(t);
+                            f()
+                        }));
+                        match r {
+                            Ok(v) => {
+                                b2.task_end(t, None);
+                                install(None);
+                                v
+                            }
+                            Err(p) => {
+                                b2.task_end(t, Some(panic_text(&*p)));
+                                install(None);
+                                resume_unwind(p)
+                            }
+                        }
+                    })
+                    .expect("failed to spawn thread");
+                JoinHandle {
+                    inner,
+                    task: Some((t, b)),
+                }
+            }
+            None => JoinHandle {
+                inner: std::thread::spawn(f),
+                task: None,
+            },
+        }
+    }
+
+    pub fn sleep(d: Duration) {
+        match current() {
+            Some(b) => b.sleep(d),
+            None => std::thread::sleep(d),
+        }
+    }
+}
+
+/// Replacement for the name `std` inside a function body that calls `std::thread::sleep`.
+pub mod std_shadow {
+    pub mod thread {
+        pub use crate::verif::thread::sleep;
+    }
+}
+
+pub mod time {
+    use super::*;
+    use std::ops::Sub;
+
+    #[derive(Clone, Copy, Debug)]
+    pub enum Instant {
+        Real(std::time::Instant),
+        Sim(i128),
+    }
+
+    impl Instant {
+        pub fn now() -> Instant {
+            match current() {
+                Some(b) => Instant::Sim(b.now_ns()),
+                None => Instant::Real(std::time::Instant::now()),
+            }
+        }
+
+        pub fn elapsed(&self) -> Duration {
+            match self {
+                Instant::Real(i) => i.elapsed(),
+                Instant::Sim(t) => {
+                    let now = current().map(|b| b.now_ns()).unwrap_or(*t);
+                    let d = now - *t;
+                    if d <= 0 {
+                        Duration::ZERO
+                    } else {
+                        Duration::new((d / 1_000_000_000) as u64, (d % 1_000_000_000) as u32)
+                    }
+                }
+            }
+        }
+    }
+
+    impl Sub<Duration> for Instant {
+        type Output = Instant;
+        fn sub(self, d: Duration) -> Instant {
+            match self {
+                Instant::Real(i) => Instant::Real(i - d),
+                // Linux semantics: the monotonic clock is a signed number of seconds, so
+                // subtracting a few minutes shortly after boot does not underflow.
+                Instant::Sim(t) => Instant::Sim(t - d.as_nanos() as i128),
+            }
+        }
+    }
+}
